@@ -136,6 +136,9 @@ func Run(f Family, seed int64, n int, dir string) {
 	if x, ok := f.(interface{ Extra() map[string]int }); ok {
 		st.Extra = x.Extra()
 	}
+	if x, ok := f.(interface{ Cleanup() }); ok {
+		x.Cleanup()
+	}
 	o.Close(st)
 }
 
@@ -158,6 +161,9 @@ func Replay(f Family, opsFile, dir string) {
 	}
 	if x, ok := f.(interface{ Extra() map[string]int }); ok {
 		st.Extra = x.Extra()
+	}
+	if x, ok := f.(interface{ Cleanup() }); ok {
+		x.Cleanup()
 	}
 	o.Close(st)
 }
